@@ -233,4 +233,37 @@ CHECKS: Dict[str, Dict[str, str]] = {
     ),
 }
 
+# Rules added after the entries above were written (DESIGN.md 11.7): appended to the technique / text of each property.
+_LATER: Dict[str, Dict[str, str]] = {
+    "C01": dict(technique="operand immutability decided by evaluation on a grid of compositions of named sets, asked before and after (C01.R11)",
+                text="C01.R11 decides the last clause (operands are never changed) on a bounded grid of 63 composition pairs, memos warm and cold."),
+    "C02": dict(technique="concrete nested types built by evaluation of the real constructors over the real length-set algebra and compared with an independent reference, in several query orders (C02.R8)",
+                text="C02.R8 compares the layout of 12 concrete nested types with an independently written reference on three passes (bounded grid)."),
+    "C04": dict(technique="identifier resolution evaluated on a builder whose constants hold real instances of the expression classes, falsy ones included (C04.R7)",
+                text="C04.R7: identifiers evaluate to the constant of that name whatever its value; unknown ones are rejected."),
+    "C06": dict(technique="serialize / deserialize with the real bit writer and reader evaluated from the source on concrete nested types and values and compared byte for byte with an independently written encoder / decoder of the Specification's wire format (C06.R7, rules/concrete.py)",
+                text="C06.R7 decides the wire encoding and the round trip on a bounded grid of 19 (type, value) pairs, two passes; the unbounded statement stays undecided."),
+    "C07": dict(technique="deserialize evaluated from the source in one process on a grid of byte strings (prefixes of valid representations, junk / zero suffixes, bit flips, 0xFF runs, pseudo-random strings) and compared with an independently written decoder including the three rejections (C07.R6)",
+                text="C07.R6 decides totality, zero extension, truncation and the rejections on about 800 byte strings (quick) / all prefixes and bit flips (thorough)."),
+    "C08": dict(technique="offset iterators of concrete structures / unions / delimited types / fixed arrays evaluated for aligned, unaligned and multi-valued bases, repeatedly and after caller-side mutation of everything the public accessors return (C08.R6)",
+                text="C08.R6 compares concrete offsets with an independent reference on a bounded grid, across calls."),
+    "C09": dict(technique="the lookup list constructed from directories over an abstract file system, with instances compared and hashed by their class's own __eq__ / __hash__, handed to the resolver (C09.R5)",
+                text="C09.R5: two files that spell one name and version both reach the lookup list and a reference to them is a collision."),
+    "C10": dict(technique="requested files -> one definition per file (C10.R7); normalize_paths_argument_to_list on every argument shape incl. one-shot iterators (C10.R8); no memoised function reaches the working directory / file system / environment / clock (C10.R9, call graph)",
+                text="C10.R7-R9 decide the construction of the target list, the normalisation of path arguments and the absence of ambient-state memos."),
+    "C13": dict(technique="the entry points' common tail evaluated with assert statements evaluated over directories whose file names coincide (C13.R5); provenance of every raised exception object - none comes from a memo, table or attribute (C13.R6)",
+                text="C13.R5 decides the file-name clause for coinciding names; C13.R6 that error locations cannot be inherited from an earlier raise."),
+    "C14": dict(technique="two revisions of an appendable type built concretely, nested in four kinds of container, serialized with one and deserialized with the other by evaluation of the real codec, compared with an independent reference (C14.R7)",
+                text="C14.R7 decides value preservation across revisions on a bounded grid (both directions, layout equality of the containers included)."),
+    "C15": dict(technique="no memoised function of the package reaches Path.resolve / exists / cwd / the environment (C15.R5, call graph)",
+                text="C15.R5: a relative or bare root designation is resolved at the time of the call."),
+    "C16": dict(technique="zero-length-element arrays of capacity 2**40 among the huge-parameter subjects (C16.R7)", text=""),
+    "C19": dict(technique="read_namespace / read_files evaluated end to end over an abstract file system with only the per-file read stubbed by the documented protocol; outcome compared with every file outside the closure broken (C19.R6)",
+                text="C19.R6 decides which files the entry points read - exactly the targets and their closure - on four entry-point calls."),
+}
+for _k, _v in _LATER.items():
+    CHECKS[_k]["technique"] += "; " + _v["technique"]
+    if _v["text"]:
+        CHECKS[_k]["text"] += " " + _v["text"]
+
 NOT_APPLICABLE: Dict[str, str] = {}
